@@ -50,5 +50,8 @@ pub fn cmp_same_len(lhs: &[Word], rhs: &[Word]) -> (ret: Ordering)
 { unimplemented!() }
 }
 //@@ FN integer/modular2/mul_normalized.rs drop_asserts=2
+//@@ FN integer/modular2/sqr_normalized.rs drop_asserts=2
+//@@ FN integer/modular2/mul_in_place.rs
+//@@ FN integer/modular2/sqr_in_place.rs
 } // verus!
 fn main() {}
